@@ -7,6 +7,7 @@ CONSTANTS
   LongSizes = {40, 300, 1000}
   LongRuns <- RunsThorough
   FullQueries = 301
+  PauseSizes = {300, 1000, 2000}
   DevSets <- OnlyFixed
 SPECIFICATION MCFairSpec
 INVARIANTS TypeOK ResultInv PlanetLayoutOK RequestBoundInv BracketInv KFCoverInv RunAgrees
